@@ -27,7 +27,13 @@ func c09PayloadNames() []string {
 	for k := range c09Payloads {
 		ks = append(ks, k)
 	}
-	sort.Strings(ks)
+	// short payloads first: the cheap classes are explored before the expensive ones
+	sort.Slice(ks, func(i, j int) bool {
+		if li, lj := len(c09Payloads[ks[i]]), len(c09Payloads[ks[j]]); li != lj {
+			return li < lj
+		}
+		return ks[i] < ks[j]
+	})
 	return ks
 }
 
